@@ -22,7 +22,9 @@ NOTE_TEXT = ['(BONG)', '<VT IN>', '(', ')', '()', '<>', '( x )', '  (padded note
              '(two\nlines)', '<a\nb>', '(\n)', '\n(note after a line feed)\n', 'plain\n(second line in brackets)',
              '(mix>', '<mix)', '', ' ', '\n  \n', 'plain (with) brackets', '<a> and <b>', '(a) then (b)',
              # reference-like text: not a note, and not to be decoded a second time
-             '&lt;VT&gt;', '&amp;', 'q=budget&region=wales&section=politics', '&#40;not a note&#41;', 'AT&T']
+             '&lt;VT&gt;', '&amp;', 'q=budget&region=wales&section=politics', '&#40;not a note&#41;', 'AT&T',
+             # characters outside the Basic Multilingual Plane
+             '\U0001F600 good evening', '(\U0001F3AC)', '\U00020000\U0001D49C']
 HOSTILE_IDS = ['S1', 'S10', 'S1 ', ' S1', 's1', 'S01', 'A&B', 'x<y', 'q"q', "o'o", '5" x 7\' card',
                'NEWS,AM,S1', 'SPORT,AM,S1', 'OPENMEDIA,7f3a.22,S10', '{6B29FC40-CA47-1067}', 'a{0}b', '%s %d {x}',
                'B"][itemID=\'B\'][itemID="B', 'éè', '\U0001F600',
@@ -190,7 +192,16 @@ def rand_timing(rng, mode='any'):
             if k_ in kw and rng.random() < 0.7:
                 v_ = kw[k_]
                 kw[k_] = rng.choice(['+%s' % v_, ' %s ' % v_, '0%s' % v_, '%se0' % v_, '-%s' % v_, '%s' % (v_ * 1000) + 'e-3'])
+    if rng.random() < 0.12:
+        # all three fields, StoryDuration disagreeing with TextTime + MediaTime (it takes precedence wherever it stands)
+        kw['duration'], kw['text_time'], kw['media_time'] = q(), q(), q()
     t = B.timing(**kw)
+    if rng.random() < 0.35:
+        # the order of the payload fields is not fixed
+        p_ = t.find('mosPayload')
+        kids_ = list(p_)
+        rng.shuffle(kids_)
+        p_[:] = kids_
     if rng.random() < 0.15:
         # a vendor element in its own namespace whose local name looks like a MOS timing tag
         p = t.find('mosPayload')
